@@ -20,6 +20,7 @@ import (
 	"sort"
 	"strings"
 	"sync"
+	"time"
 
 	"verif/harness/internal/ev"
 	"verif/harness/internal/gen"
@@ -218,7 +219,9 @@ func rewriterLayer(r *ev.Run, sel string) {
 		return out
 	}
 
-	scan := ev.New("C13scan", "exploration") // throw-away: never finished, nothing of it is written
+	t0 := time.Now()
+	defer func() { r.Extra("rewriter_layer_wall_s", time.Since(t0).Seconds()) }() // information only
+	scan := ev.New("C13scan", "exploration")                                      // throw-away: never finished, nothing of it is written
 	scan.Seed, scan.Tier = r.Seed, r.Tier
 	if err := c13.RunRewriters(scan, nGen["mysql"], nGen["postgresql"], derive); err != nil {
 		r.Violation("infrastructure: rewriter workload could not be built", err.Error())
